@@ -100,6 +100,45 @@ def mutations(root):
     return out
 
 
+_PADS = 40
+
+
+def wrap_long(x):
+    """x at the END of a statement that prints well over 500 characters (as the last select-list item, or as the FROM subquery of a
+    long select list); None when x cannot stand there.  Laws about equality and printing must not depend on how long the text is."""
+    pads = [A.Identifier(parts=['padding_column_%02d' % i]) for i in range(_PADS)]
+    try:
+        if isinstance(x, (A.Select, A.Union, A.Intersect, A.Except)):
+            w = A.Select(targets=pads, from_table=x)
+        elif isinstance(x, (A.Insert, A.Update, A.Delete, A.CreateTable, A.DropTables, A.Set, A.Show, A.Use)) or not isinstance(x, ASTNode):
+            return None
+        else:
+            w = A.Select(targets=pads + [x])
+        w.to_string(), w.to_tree()
+        return w
+    except Exception:  # noqa
+        return None
+
+
+def eq_print_law(a, b, tag):
+    """`a == b` must be a symmetric bool, and equal trees must print the same SQL - also when a and b end a long statement"""
+    problems = []
+    for x, y, where in ((a, b, ''), (wrap_long(a), wrap_long(b), ' (at the end of a long statement)')):
+        if x is None or y is None:
+            continue
+        try:
+            sx, sy = x.to_string(), y.to_string()
+            x.to_tree(), y.to_tree()
+            xy, yx = (x == y), (y == x)
+        except Exception:  # noqa
+            continue        # the mutation made something no printer accepts: not a tree
+        if bool(xy) != bool(yx):
+            problems.append('== is not symmetric%s%s' % (where, tag))
+        if xy is True and sx != sy:
+            problems.append('equal trees print differently%s%s' % (where, tag))
+    return problems
+
+
 def copy_step(cls, mask, n1, n2, mut, deep):
     """returns list of problems.  mut = -1: none; 0..n-1: that single-attribute mutation applied to the COPY afterwards (independence);
     n..2n-1: mutation (mut-n) applied to the ORIGINAL first (flags, aliases, strings, list edits on every reachable node), so that
@@ -155,6 +194,7 @@ def _copy_concrete(cls, full, n1, n2, mut, deep):
         thunk()
         if node.to_string() != s0 or node.to_tree() != t0:
             problems.append('mutating the copy (%s) changed the original' % label)
+        problems += eq_print_law(cp, node, ' [copy mutated with %s]%s' % (label, tag))
     return problems
 
 
@@ -182,6 +222,7 @@ def _eq_concrete(cls, mask_a, n_a, mask_b, n_b):
         problems.append('!= inconsistent with ==')
     if a == 1 or a == None or a == 'x':   # noqa
         problems.append('equal to a non-node')
+    problems += eq_print_law(a, b, '')
     return problems
 
 
@@ -306,6 +347,8 @@ def parsed_copy_check(sql, node):
                 changed = True
             if changed:
                 problems.append('mutating the copy (%s) changed the original' % label)
+            elif not problems:
+                problems += eq_print_law(cp, node, ' [copy mutated with %s]' % label)
         if problems:
             break
     return ['%s (%s)' % (p, 'deepcopy' if deep else 'copy()') for p in problems[:3]]
